@@ -1024,6 +1024,15 @@ def run_property(pid, tier, seed):
         if P.nontrivial(c, li):
             distinct.add(hashlib.md5(("\n".join(rxlib.project(li, P.sections)) + "|" + c.data.hex() + str(c.dtd) + str(c.limit)).encode()).digest())
     rel = P.relation(cases, impl) if (P.relation and cases) else []
+    # extraction spot check (the model evaluated inside Coq vs the extracted code)
+    spot_n, spot_mism = (0, [])
+    if model and (pid == "C02" or tier == "thorough"):
+        rnd = random.Random(seed)
+        sample = [c for c in cases if len(c.data) <= 120]
+        sample = rnd.sample(sample, min(len(sample), 40))
+        spot_n, spot_mism = rxlib.extraction_spot_check(sample, work)
+        if spot_mism:
+            proof_problems.append("extraction spot check: the extracted model disagrees with the model evaluated inside Coq: " + "; ".join(spot_mism[:3]))
     extra_fails, extra_info = [], []
     extra_cases = None
     if P.extra:
@@ -1118,6 +1127,7 @@ def run_property(pid, tier, seed):
             "result_kinds": dict(kinds), "error_variants_hit": dict(errs), "generators": dict(gen_hist),
             "input_length_log2_histogram": {str(k): v for k, v in sorted(len_hist.items())},
             "runtime_families": extra_info, "build_seconds": round(t_build, 1),
+            "extraction_spot_check": {"cases_evaluated_inside_coq": spot_n, "mismatches": len(spot_mism)},
         },
         "assumptions": ["inputs are valid UTF-8 (guaranteed by &str)", "length of the input < 2^32",
                         "the dump printers of harness and driver print what the API returns"],
